@@ -142,6 +142,9 @@ pub struct RawParams {
     /// smaller units put the timeout and the item delays below one millisecond)
     #[serde(default = "default_unit_us")]
     pub unit_us: u32,
+    /// virtual time the (async) error callback takes before it returns (futures-fallible executor): a slow error handler
+    #[serde(default)]
+    pub err_cb_ms: u32,
 }
 
 fn default_unit_us() -> u32 {
@@ -161,6 +164,7 @@ fn raw_run<const I: usize>(p: &RawParams) {
     let unit_us = p.unit_us.max(1) as u64;
     let units = move |n: u32| Duration::from_micros(n as u64 * unit_us);
     let metric_origin = p.sched.metric_origin;
+    let err_cb_ms = p.err_cb_ms;
     rt.block_on(async move {
         let t0 = tokio::time::Instant::now();
         let executor = if p2.timeout_ms > 0 { StreamExecutor::<I>::with_futures_timeout("raw", units(p2.timeout_ms)) } else { StreamExecutor::<I>::new("raw") };
@@ -184,7 +188,12 @@ fn raw_run<const I: usize>(p: &RawParams) {
         let close_cb = move |stats: Arc<dyn StreamExecutorStats + Send + Sync>| {
             let l_close = Arc::clone(&l_close);
             let stats_holder2 = Arc::clone(&stats_holder2);
-            l_close.lock().unwrap().close_invocations.push((format!("{:?}", stats.executor_status().load(Relaxed)), now_ms(t0), stats.execution_finish_delta_nanos() >= stats.execution_start_delta_nanos()));
+            {
+                let mut l = l_close.lock().unwrap();
+                let done = l.on_err_calls.len();
+                l.notes.push(format!("on_err_returned_at_close={}", done));
+                l.close_invocations.push((format!("{:?}", stats.executor_status().load(Relaxed)), now_ms(t0), stats.execution_finish_delta_nanos() >= stats.execution_start_delta_nanos()));
+            }
             async move {
                 let status = stats.executor_status().load(Relaxed);
                 l_close.lock().unwrap().close_calls.push((format!("{:?}", status), now_ms(t0)));
@@ -217,6 +226,9 @@ fn raw_run<const I: usize>(p: &RawParams) {
                     move |err| {
                         let l_err = Arc::clone(&l_err);
                         async move {
+                            if err_cb_ms > 0 {
+                                tokio::time::sleep(units(err_cb_ms)).await;
+                            }
                             l_err.lock().unwrap().on_err_calls.push((err.to_string(), now_ms(t0)));
                         }
                     },
@@ -347,6 +359,12 @@ fn raw_run<const I: usize>(p: &RawParams) {
             ctx::report("C12", "status_in_close_callback", key("status_in_close_callback"), format!("the close callback found the executor in state {} (scheduled to finish: {})", status, scheduled));
         }
     }
+    // a failed item is fully processed when its error callback has returned: none may still be running at the close callback
+    if let Some(n) = l.notes.iter().find_map(|n| n.strip_prefix("on_err_returned_at_close=")).and_then(|v| v.parse::<usize>().ok()) {
+        if n < l.on_err_calls.len() {
+            ctx::report("C12", "close_before_error_callback_returned", key("close_before_error_callback_returned"), format!("the close callback was invoked when {} of the {} error callbacks of this stream had returned (a failed item is not fully processed before its error callback returns)", n, l.on_err_calls.len()));
+        }
+    }
     // ... and the same at the instant the callback is invoked (not only when the future it returns is polled)
     if l.close_invocations.len() != 1 {
         ctx::report("C12", "close_callback_count", key("close_callback_count"), format!("the executor's close callback was invoked {} times", l.close_invocations.len()));
@@ -420,6 +438,7 @@ impl Scenario for ExecRaw {
             feed_gap_ms: *rng.pick(&[0, 0, 1, 7]),
             schedule_finish_after_ms: if rng.chance(1, 4) { 1 + rng.below(60) as u32 } else { 0 },
             unit_us,
+            err_cb_ms: *rng.pick(&[0, 0, 1, 3]),
         }
     }
     fn sched<'a>(&self, p: &'a RawParams) -> &'a SchedSpec {
